@@ -14,6 +14,7 @@ def build(ctx):
     t += 'pub struct ActivePeersInner;\nimpl ActivePeersInner {\n'
     t += C.fn(P.CM, 'impl ActivePeersInner :: fn simultaneous_dial_tie_breaking', 'ActivePeersInner::simultaneous_dial_tie_breaking', ['C05'], probe=False)
     t += '}\n'
+    t += C.helpers_here()
     t += r'''
 #[cfg(kani)]
 mod harness {
